@@ -1,6 +1,8 @@
 package rules
 
 import (
+	"go/constant"
+	"go/token"
 	"go/types"
 	"strings"
 
@@ -27,6 +29,7 @@ func C15(r *core.Run) {
 	rule017(r)
 	rule155(r)
 	rule156(r)
+	rule157(r)
 }
 
 var boltMutators = map[string]bool{
@@ -448,5 +451,119 @@ func rule156(r *core.Run) {
 			}
 		})
 		r.Check(okp, "R15.6", key(fname(r, lm), "reads the record saved for (bucket, key)"), r.P.Pos(lm.Pos()), "ReadFile(metaPath(bucket, object))", "loadMeta does not read the record from metaPath(bucket, object): saved metadata is not found again")
+	}
+}
+
+// rule157 — persistent backends answer from, and name their records by, what is persistent.
+func rule157(r *core.Run) {
+	r.Rule("R15.7", "every exported s3bolt.Backend method returns success only after a bolt transaction ran (its answer comes from the file, not from process memory); metaStore.metaPath is a deterministic function of (bucket, key): no per-instance or per-process input (maphash seed, random, time, pid, instance fields); in the command a metadata path flag is used under a test of that same flag")
+	for _, fn := range r.P.FuncsOfPkg("s3bolt") {
+		n := fname(r, fn)
+		if !strings.HasPrefix(n, "s3bolt.(*Backend).") || fn.Parent() != nil || !isExportedName(fn.Name()) {
+			continue
+		}
+		if fn.Name() == "CopyObject" {
+			continue // delegates to GetObject/PutObject through gofakes3.CopyObject
+		}
+		var txs []ssa.Instruction
+		for _, f := range reachableList(r, fn) {
+			if f != fn && !strings.HasPrefix(fname(r, f), "s3bolt.") {
+				continue
+			}
+			core.Instrs(f, func(in ssa.Instruction) {
+				if c, ok := in.(ssa.CallInstruction); ok {
+					cn := r.P.CalleeName(c)
+					if f == fn && (cn == "(*go.etcd.io/bbolt.DB).View" || cn == "(*go.etcd.io/bbolt.DB).Update" || strings.HasPrefix(cn, "s3bolt.(*Backend).")) {
+						txs = append(txs, in)
+					}
+				}
+			})
+		}
+		ok := len(txs) > 0
+		k := 0
+		for ret, ev := range returnedErrors(fn) {
+			if !definitelyNil(r, ev) {
+				continue
+			}
+			k++
+			if core.ReachableFromEntryAvoiding(ret, func(in ssa.Instruction) bool {
+				for _, t := range txs {
+					if in == t {
+						return true
+					}
+				}
+				return false
+			}) {
+				ok = false
+			}
+		}
+		// methods whose error is the transaction's own (return x, db.bolt.Update(...)) have no definitely-nil return
+		if k == 0 && len(txs) > 0 {
+			ok = true
+		}
+		r.Check(ok, "R15.7", key(n, "answers from the bolt file"), r.P.Pos(fn.Pos()), "success only after a bolt transaction", "the method can answer successfully without consulting the bolt file (from process memory): after a restart on the same file the answer differs")
+	}
+	if mp := mustFunc(r, "s3afero.(*metaStore).metaPath"); mp != nil {
+		var rets []ssa.Value
+		for _, ret := range core.Returns(mp) {
+			rets = append(rets, ret.Results...)
+		}
+		s := r.P.SliceOfMany(rets, core.SliceOpts{Depth: -1})
+		bad := ""
+		for l := range s.Leaves {
+			switch {
+			case strings.HasPrefix(l, "call:hash/maphash"), strings.HasPrefix(l, "feeds:(*hash/maphash"), strings.HasPrefix(l, "call:(*hash/maphash"), strings.Contains(l, "math/rand"), strings.Contains(l, "crypto/rand"), strings.Contains(l, "time.Now"), strings.Contains(l, "os.Getpid"), strings.Contains(l, "os.Hostname"):
+				bad = l
+			case strings.HasPrefix(l, "field:s3afero.metaStore."):
+				bad = l + " (instance state)"
+			}
+		}
+		detHash := s.Has("call:hash/fnv.New128a") || s.Has("call:hash/fnv.New64a") || s.Has("call:crypto/md5.New") || s.Has("call:crypto/sha256.New") || s.Has("call:crypto/md5.Sum") || s.Has("call:crypto/sha256.Sum256") || s.Has("call:crypto/sha1.New") || s.Has("call:hash/fnv.New128") || s.Has("call:hash/fnv.New64") || s.Has("call:hash/fnv.New32a")
+		r.Check(bad == "" && detHash, "R15.7", key(fname(r, mp), "record name is deterministic"), r.P.Pos(mp.Pos()), "name = f(bucket, key) with a fixed hash function", "the metadata record name depends on something other than (bucket, key) and a fixed hash function ("+bad+"): a new process over the same directories cannot find the records written by the previous one")
+	}
+	if run := mustFunc(r, "cmd.run"); run != nil {
+		n := 0
+		core.Instrs(run, func(in ssa.Instruction) {
+			c, ok := in.(*ssa.Call)
+			if !ok || r.P.CalleeName(c) != "s3afero.FsPath" {
+				return
+			}
+			as := r.P.SliceOf(c.Call.Args[0], core.SliceOpts{Depth: -1})
+			var used []string
+			for _, l := range as.LeafList("field:cmd.fakeS3Flags.") {
+				used = append(used, l)
+			}
+			if len(used) != 1 {
+				return
+			}
+			n++
+			bad := ""
+			for _, g := range core.GuardsOf(c) {
+				// only presence tests of a string flag (flag ==/!= "") are considered
+				cd := core.CondOf(g.If.Cond)
+				if cd.Op != token.EQL && cd.Op != token.NEQ {
+					continue
+				}
+				var fv ssa.Value
+				if k, ok := cd.Y.(*ssa.Const); ok && k.Value != nil && k.Value.Kind() == constant.String && constant.StringVal(k.Value) == "" {
+					fv = cd.X
+				} else if k, ok := cd.X.(*ssa.Const); ok && k.Value != nil && k.Value.Kind() == constant.String && constant.StringVal(k.Value) == "" {
+					fv = cd.Y
+				}
+				if fv == nil {
+					continue
+				}
+				gs := r.P.SliceOf(fv, core.SliceOpts{Depth: -1})
+				for _, l := range gs.LeafList("field:cmd.fakeS3Flags.") {
+					if l != used[0] && (strings.HasSuffix(l, "Meta") || strings.HasSuffix(l, "Path") || strings.HasSuffix(l, "Db")) {
+						bad = l
+					}
+				}
+			}
+			r.Check(bad == "", "R15.7", key("cmd.run", "flag guarded by itself", strings.TrimPrefix(used[0], "field:cmd.fakeS3Flags.")), pos(r, c), "path flag used under a test of the same flag", "the path flag "+used[0]+" is used under a test of a different flag ("+bad+"): the option is silently ignored and the data does not go where it was configured")
+		})
+		if n < 4 {
+			r.Unresolved("R15.7: %d FsPath(flag) calls in cmd.run (expected 4)", n)
+		}
 	}
 }
